@@ -347,6 +347,13 @@ func runC01() {
 		nRandom, nEnvs, exLevel, exSample = 6000, 8, 2, 1<<30
 	}
 	envs := standardEnvs(rng, nEnvs)
+	// one more environment whose map members hold nil / non-callable entries, and the method calls that meet them: run on
+	// EVERY environment (FetchFn / FetchFnNil on maps)
+	envs = append(envs, nilFnEnv())
+	nilFn := map[string]bool{}
+	for _, s := range nilFnSources() {
+		nilFn[s] = true
+	}
 	var srcs []string
 	ex := exhaustiveExprs(exLevel)
 	rep.Extra["exhaustive_family_size"] = len(ex)
@@ -359,6 +366,7 @@ func runC01() {
 	srcs = append(srcs, ex...)
 	srcs = append(srcs, nestedSources()...)
 	srcs = append(srcs, shapeSources()...)
+	srcs = append(srcs, nilFnSources()...)
 	g := &egen{rng: rng, wrong: 15, hist: rep.Histogram}
 	for i := 0; i < nRandom; i++ {
 		t := []gtype{tBool, tInt, tNum, tStr, tArrInt, tArrAny, tAny}[rng.Intn(7)]
@@ -389,12 +397,21 @@ func runC01() {
 			}
 			nontrivial := strings.ContainsAny(src, "{?") || strings.Contains(src, " and ") || strings.Contains(src, " or ") || strings.Contains(src, "(")
 			for ei, e := range envs {
-				if ei >= 2 && rng.Intn(2) == 0 && *tier != "thorough" {
+				if ei >= 2 && !nilFn[src] && rng.Intn(2) == 0 && *tier != "thorough" {
 					continue
 				}
 				r := runProgram(prog, e)
 				rep.Evaluations++
 				cls, _, _ := errInfo(r.err)
+				if nilFn[src] {
+					if cls == "" && r.out == nil {
+						rep.hist("method call on a map member / nil receiver: nil")
+					} else if cls == "" {
+						rep.hist("method call on a map member / nil receiver: value")
+					} else {
+						rep.hist("method call on a map member / nil receiver: fails " + cls)
+					}
+				}
 				if cls == "" {
 					rep.hist("run ok")
 				} else {
